@@ -373,5 +373,5 @@ func (fs *FileSink) newFileName(createTime time.Time) string {
 }
 
 func (fs *FileSink) rotateEnabled() bool {
-	return fs.MaxBytes > 0 || fs.MaxDuration != 0
+	return fs.MaxBytes > 0 || fs.MaxDuration > 0
 }
